@@ -3,10 +3,10 @@
 set -u
 pid=$1; root=$2; wt=$3
 cd /verif
-before=$(ls seeded | grep -c "^$pid-")
+ls seeded | grep "^$pid-" | sort > /tmp/.take_before_$pid
 /venv/bin/python tools/import_seeded.py $pid $root/$pid 2>&1 | grep -v WARNING
 git -C /repo worktree remove --force $wt$pid 2>/dev/null
-after=$(ls seeded | grep -c "^$pid-")
 new=""
-for i in $(seq $((before+1)) $after); do new="$new seeded/$pid-s$i/patch.diff"; done
-[ -n "$new" ] && /venv/bin/python selftest.py $new 2>&1 | grep -v WARNING | tail -$((after-before+4))
+for d in $(ls seeded | grep "^$pid-" | sort | comm -13 /tmp/.take_before_$pid -); do new="$new seeded/$d/patch.diff"; done
+rm -f /tmp/.take_before_$pid
+[ -n "$new" ] && /venv/bin/python selftest.py $new 2>&1 | grep -v WARNING | tail -8
